@@ -272,12 +272,6 @@ func RunFaults(in, out string, seed int64) (int, error) {
 	defer w.Close()
 	adaptation.SetPluginRequestTimeout(faultTimeout)
 	s := &session{o: Options{}, rng: rand.New(rand.NewSource(seed))}
-	r, err := rig.New()
-	if err != nil {
-		return 0, err
-	}
-	defer r.Close()
-	s.installSync(r)
 	sc := bufio.NewScanner(f)
 	n := 0
 	for sc.Scan() {
@@ -291,7 +285,15 @@ func RunFaults(in, out string, seed int64) (int, error) {
 		}
 		n++
 		s.run = n
-		if err := s.faultRun(r, w, fs); err != nil {
+		// a fresh adaptation per scenario: nothing lingers from the previous one
+		r, err := rig.New()
+		if err != nil {
+			return 0, err
+		}
+		s.installSync(r)
+		err = s.faultRun(r, w, fs)
+		r.Close()
+		if err != nil {
 			return 0, fmt.Errorf("scenario %d (%s): %w", n, line, err)
 		}
 	}
